@@ -261,6 +261,9 @@ def gen_http_history(rng, tier):
     return reqs
 
 
+SETUP = {}
+
+
 def run_c04(tier, seed, replay=None):
     t0 = time.time()
     spec = Spec()
@@ -279,6 +282,18 @@ def run_c04(tier, seed, replay=None):
         raise RuntimeError("server binary build failed: " + blog[-1500:])
     work = tempfile.mkdtemp(prefix="c04-", dir=CACHE)
     kinds = {"proc": 0, "power": 0}
+    # Setup.v, run: the directory after a start that died after k of its six steps, and after the next start
+    q = subprocess.run([RUNNER, "sqlite"], input="\n".join(f"setupstate {k}" for k in range(8)) + "\n", capture_output=True, text=True, timeout=60)
+    SETUP.clear()
+    SETUP["prefix"] = set()
+    for l in q.stdout.split("\n"):
+        m = re.match(r"^setupstate (.*) => (.*) ready=(\d)$", l.strip())
+        if m:
+            SETUP["prefix"].add(m.group(1)); SETUP["ready"] = m.group(2)
+            if m.group(3) != "1":
+                raise RuntimeError("Setup.storage_new does not complete: " + l)
+    if len(SETUP["prefix"]) != 7:
+        raise RuntimeError("setupstate: unexpected model output " + q.stdout[:300])
     try:
         for hi in range(nh + nhttp):
             hd = os.path.join(work, f"h{hi}")
@@ -331,8 +346,8 @@ def run_c04(tier, seed, replay=None):
                 lines = []
                 for im in chunk:
                     n = os.path.basename(im["dir"])
-                    lines += [f"case {n}", f"usedir {im['dir']}", f"loadstate {hd}/ids.txt", "integrity", "dumpall",
-                              "ensure 1", "av 1 stored:1 b:7,7", "end"]
+                    lines += [f"case {n}", f"schemastat {im['dir']}", f"usedir {im['dir']}", f"schemastat {im['dir']}",
+                              f"loadstate {hd}/ids.txt", "integrity", "dumpall", "ensure 1", "av 1 stored:1 b:7,7", "end"]
                 q = subprocess.run([binp, "lib", "sqlite"], input="\n".join(lines) + "\n", capture_output=True, text=True,
                                    env=dict(ENV, VERIF_SEED=str(seed)), timeout=3000)
                 return q.stdout, q.returncode, q.stderr[-300:]
@@ -385,6 +400,15 @@ def run_c04(tier, seed, replay=None):
                     integ = [rr for o, rr in r if o == "integrity"]
                     if integ and integ[0] != "integrity ok":
                         msgs.append(f"integrity check says `{integ[0]}`: {where}")
+                    # the start-up path against Setup.v: what a process crash leaves is what SOME prefix of the six
+                    # steps of SqliteStorage::new produces; after the next start everything is there
+                    sch = [rr for o, rr in r if o == "mark schemastat"]
+                    if len(sch) == 2:
+                        out.dist["dir-state " + sch[0][7:47]] = out.dist.get("dir-state " + sch[0][7:47], 0) + 1
+                        if im["kind"] == "proc" and not sch[0].startswith("schema unreadable") and sch[0][7:] not in SETUP["prefix"]:
+                            msgs.append(f"the directory is in a state that no prefix of the start-up steps produces (Setup.dead_start): `{sch[0][7:]}`: {where}")
+                        if sch[1][7:] != SETUP["ready"] and not any(rr == "OPEN-FAILED" for o, rr in r):
+                            msgs.append(f"after the next start the directory is not completely set up (Setup.storage_new): `{sch[1][7:]}`, expected `{SETUP['ready']}`: {where}")
                     got = [rr for o, rr in r if o.startswith("dump ")]
                     ok_states = []
                     for j in range(im["acked"], min(im["acked"] + 2, len(allowed))):
